@@ -20,7 +20,7 @@ use std::sync::{Arc, Mutex};
 use std::time::Duration;
 
 const T0: u64 = 1_000_000;
-const STEPS: [&str; 8] = ["Suspend", "Delay1", "Delay5", "SysWait5", "Panic", "Return", "CancelSelf", "CancelNext"];
+const STEPS: [&str; 9] = ["Suspend", "Delay1", "Delay5", "SysWait5", "Panic", "Return", "CancelSelf", "CancelNext", "Delay20"];
 static UNIQ: AtomicU64 = AtomicU64::new(0);
 
 #[derive(Clone, Debug)]
@@ -113,6 +113,10 @@ fn run_history(cfg: &Config, hist: &[Op]) -> Outcome {
                         "Delay5" => {
                             wk.lock().unwrap()[i] = now() + 5;
                             s.delay(Duration::from_nanos(5))
+                        }
+                        "Delay20" => {
+                            wk.lock().unwrap()[i] = now() + 20;
+                            s.delay(Duration::from_nanos(20))
                         }
                         "SysWait5" => {
                             // what a hooked sleep does: Syscall(Executing) -> Syscall(Suspend(t)) -> yield
@@ -230,6 +234,7 @@ fn run_history(cfg: &Config, hist: &[Op]) -> Outcome {
                 let d = match STEPS[cfg.progs[i][w[0].2]] {
                     "Delay1" => 1,
                     "Delay5" | "SysWait5" => 5,
+                    "Delay20" => 20,
                     _ => 0,
                 };
                 if w[1].0 < w[0].0 + d {
@@ -320,6 +325,7 @@ fn state_key(cfg: &Config, hist: &[Op]) -> String {
                         "Suspend" => s.suspend(),
                         "Delay1" => { wk.lock().unwrap()[i] = now() + 1; s.delay(Duration::from_nanos(1)) }
                         "Delay5" => { wk.lock().unwrap()[i] = now() + 5; s.delay(Duration::from_nanos(5)) }
+                        "Delay20" => { wk.lock().unwrap()[i] = now() + 20; s.delay(Duration::from_nanos(20)) }
                         "SysWait5" => {
                             let t = now() + 5;
                             wk.lock().unwrap()[i] = t;
@@ -473,6 +479,15 @@ pub fn configs(tier: &str) -> Vec<Config> {
         for b in &ps {
             for prios in [[0, 0], [1, 0]] {
                 out.push(Config { progs: vec![a.clone(), b.clone()], prios: prios.to_vec(), depth });
+            }
+        }
+    }
+    // both wake-up heaps in use at once: a LONG plain delay pending while syscall waits and short
+    // delays come due (step 8 = Delay20 is only used here)
+    for a in [vec![8usize], vec![8, 0], vec![0, 8]] {
+        for b in [vec![3usize], vec![1, 3], vec![3, 2], vec![2], vec![3, 3]] {
+            for (x, y) in [(a.clone(), b.clone()), (b.clone(), a.clone())] {
+                out.push(Config { progs: vec![x, y], prios: vec![0, 0], depth: if thorough { 6 } else { 5 } });
             }
         }
     }
